@@ -8,7 +8,7 @@ func init() { checks["C08"] = checkC08 }
 
 func checkC08(c *Ctx) {
 	r := c.Rng
-	c.Ev.Coverage.Rule = "line sequences drawn from pools {valid documents, invalid documents, blank, blanks with spaces/tabs/CR, two documents on one line, a document split over two lines, scalar-only line}, 1..50 lines (up to 3000 in the boundary sweep so that root boundaries fall on index-buffer boundaries), LF and CRLF endings, with and without final newline; the line feed at every offset of a 64-byte block that holds nothing but white space (spaces/tabs/CR), between whole documents and between two halves of one; ParseND in 4 configurations vs the Coq specification nd_spec (split at LF, drop blank lines, every other line must satisfy spec_parse, documents in order, one per root) and vs the extracted model; non-trivial = compared in claim; distinct = by input bytes"
+	c.Ev.Coverage.Rule = "line sequences drawn from pools {valid documents, invalid documents, blank, blanks with spaces/tabs/CR, two documents on one line, a document split over two lines, scalar-only line}, 1..50 lines (up to 3000 in the boundary sweep so that root boundaries fall on index-buffer boundaries), LF and CRLF endings, with and without final newline; inputs of 2 kB..70 kB whose last line is the bad one (open or over-closed scopes ending in } or ]); the line feed at every offset of a 64-byte block that holds nothing but white space (spaces/tabs/CR), between whole documents and between two halves of one; ParseND in 4 configurations vs the Coq specification nd_spec (split at LF, drop blank lines, every other line must satisfy spec_parse, documents in order, one per root) and vs the extracted model; non-trivial = compared in claim; distinct = by input bytes"
 	flags := ChkVerdict | ChkDump | ChkModel | ChkKernels | ChkCopyModes | ChkNoPanic
 	var batch []PCase
 	flush := func() {
@@ -99,6 +99,23 @@ func checkC08(c *Ctx) {
 		}
 	}
 	// newline inside a string is not a delimiter (and is a control character)
+	// inputs on both sides of the 8 KiB threshold whose LAST line is the bad one — among them
+	// lines that leave a scope open or close one too many yet end in } or ] (stage 1's end check
+	// passes; only stage 2's bookkeeping at the end of the input can reject them)
+	for _, bad := range []string{`{"a":{"b":1}`, `[[1,2]`, `{"a":[{"b":null}]`, `[1,2]]`, `{"a":1}}`, `[{"a":1}`, `{"a":[1,2}`, `{"a":1`, `[1,2`, `{"a":tru}`} {
+		for _, size := range []int{2000, 8100, 8300, 9000, 20000, 70000} {
+			for _, tail := range []string{"", "\n", "\r\n", "\n\n"} {
+				var sb strings.Builder
+				for sb.Len() < size {
+					sb.WriteString(valid())
+					sb.WriteString("\n")
+				}
+				sb.WriteString(bad)
+				sb.WriteString(tail)
+				add("bad-last-line", []byte(sb.String()))
+			}
+		}
+	}
 	// lines laid across the block boundary at which a full index buffer is handed over
 	for _, d := range handoverStraddleDocs(true, []int{0, 45}) {
 		add("value-across-index-handover", d)
